@@ -95,7 +95,7 @@ def run(ref, tier='quick', props=None):
     repo = os.environ.get('SEEDED_REPO') or REPO
     env = ''
     if repo != REPO:
-        scratch = os.path.join(VERIF, '.scratch', 'seeded-out')
+        scratch = os.path.join(VERIF, '.scratch', 'seeded-out-' + os.path.basename(repo))
         os.makedirs(os.path.join(scratch, 'evidence'), exist_ok=True)
         os.makedirs(os.path.join(scratch, 'replays'), exist_ok=True)
         env = 'VERIF_REPO=%s VERIF_EVIDENCE_DIR=%s/evidence VERIF_REPLAY_DIR=%s/replays ' % (repo, scratch, scratch)
